@@ -11,8 +11,8 @@
    transition contains no '>' character (the lower level is unrestricted), and every call addresses [root] itself or a root that cannot
    share a file with it. *)
 From Coq Require Import ZArith List Bool String.
-Require Import Cherab.Model.C06_Repo Cherab.Model.C06_Spec Cherab.Model.C06_Check.
-Require Import Cherab.Proofs.C06_Keys Cherab.Proofs.C06_Refine Cherab.Proofs.C06_Props Cherab.Proofs.C06_Extra Cherab.Proofs.C06_More.
+Require Import Cherab.Model.C06_Repo Cherab.Model.C06_Spec Cherab.Model.C06_Check Cherab.Model.C06_Json.
+Require Import Cherab.Proofs.C06_Keys Cherab.Proofs.C06_Refine Cherab.Proofs.C06_Props Cherab.Proofs.C06_Extra Cherab.Proofs.C06_More Cherab.Proofs.C06_Json.
 Import ListNotations.
 Open Scope Z_scope.
 
@@ -132,6 +132,15 @@ Theorem C06_valid_calls_return :
 Proof. exact valid_calls_return. Qed.
 Print Assumptions C06_valid_calls_return.
 
+(* which exception a call raises (none, ValueError, TypeError) is decided by its arguments alone - the checks of
+   every file visit in source order: TypeError for an argument that is not an Element, ValueError for a charge above
+   the atomic number / a negative metastable / array shapes, TypeError for a dictionary json.dumps cannot serialise -
+   never by what the repository holds *)
+Theorem C06_outcome_independent_of_store :
+  forall root c d, call_ok c = true -> root_ok root c -> snd (run_call c d) = outcome_call c.
+Proof. exact run_call_outcome. Qed.
+Print Assumptions C06_outcome_independent_of_store.
+
 (* what a zero of the correspondence comparator (Model/C06_Check.v) certifies: at every call the
    implementation's outcome and its read of every key are the model's, and the files on disk are the
    model's files after the history *)
@@ -149,10 +158,30 @@ Theorem C06_arrow_alias_witness :
 Proof. exact arrow_alias_witness. Qed.
 Print Assumptions C06_arrow_alias_witness.
 
+(* the JSON layer at the token level (Model/C06_Json.v): the reader recovers every value tree (nested objects with
+   string keys, lists of lists of numbers, numbers) from the tokens the printer writes for it, with any continuation *)
+Theorem C06_json_roundtrip :
+  forall v, parse (print v) = Some v.
+Proof. exact parse_print. Qed.
+Print Assumptions C06_json_roundtrip.
+
+(* hence two different file contents never have the same file text (token sequence) *)
+Theorem C06_json_print_injective :
+  forall v v', print v = print v' -> v = v'.
+Proof. exact print_injective. Qed.
+Print Assumptions C06_json_print_injective.
+
+(* what a zero of the per-file comparator certifies: the file's tokens are the model printer's for the value that was
+   written, and the model reader gives that value back *)
+Theorem C06_check_file_sound :
+  forall written loaded toks, check_file written loaded toks = 0%Z -> toks = print written /\ parse toks = Some written.
+Proof. exact check_file_sound. Qed.
+Print Assumptions C06_check_file_sound.
+
 (* non-vacuity: a history over two repositories with an alias transition, a rejected update in the
    middle and an install front end meets the hypotheses, and reads what the theorems say *)
 Definition ex_root : path := ["repo"%string].
-Definition ex_C : species := {| sym := "C"; znum := 6 |}.
+Definition ex_C : species := {| sym := "C"; znum := 6; is_elem := true |}.
 Definition ex_history : list call :=
   [ APec PExc (Some ex_root) ex_C 5 (LInt 3, LInt 2) (leaf_ok 1%positive);
     AAdf11 FCont (Some ex_root) ex_C 2 (leaf_ok 2%positive);
